@@ -576,11 +576,33 @@ func (s *Server) GetResolved(docURI protocol.DocumentURI) *include.ResolvedJourn
 	return nil
 }
 
+// workspaceResolvedFor returns the workspace's resolved journal when the document is the
+// workspace's root journal or a file of its include tree. A journal outside that tree (a
+// second top-level journal in the folder) is not described by the workspace view: nil.
+func (s *Server) workspaceResolvedFor(docURI protocol.DocumentURI) *include.ResolvedJournal {
+	if s.workspace == nil || !s.workspace.Contains(uriToPath(docURI)) {
+		return nil
+	}
+	return s.workspace.GetResolved()
+}
+
+// getWorkspaceResolved returns what completion works with: the workspace's resolved journal when
+// there is one (also in a journal the root does not include yet, where the names known to the
+// workspace are still the useful ones), otherwise the document's own resolved journal.
 func (s *Server) getWorkspaceResolved(docURI protocol.DocumentURI) *include.ResolvedJournal {
 	if s.workspace != nil {
 		if resolved := s.workspace.GetResolved(); resolved != nil {
 			return resolved
 		}
+	}
+	return s.GetResolved(docURI)
+}
+
+// resolvedForDocument returns the resolved journal that describes the document: the workspace's
+// when the document belongs to it, the document's own include tree otherwise.
+func (s *Server) resolvedForDocument(docURI protocol.DocumentURI) *include.ResolvedJournal {
+	if resolved := s.workspaceResolvedFor(docURI); resolved != nil {
+		return resolved
 	}
 	return s.GetResolved(docURI)
 }
@@ -592,10 +614,8 @@ func (s *Server) getWorkspaceResolved(docURI protocol.DocumentURI) *include.Reso
 // parses open files from their buffers, the per-document tree consists of the document's
 // buffer (content) and its includes as read from disk.
 func (s *Server) resolvedWithPrimaryPath(docURI protocol.DocumentURI, content string) (*include.ResolvedJournal, string, *fileMappers) {
-	if s.workspace != nil {
-		if resolved := s.workspace.GetResolved(); resolved != nil {
-			return resolved, s.workspace.RootJournalPath(), s.openFileMappers()
-		}
+	if resolved := s.workspaceResolvedFor(docURI); resolved != nil {
+		return resolved, s.workspace.RootJournalPath(), s.openFileMappers()
 	}
 	path := uriToPath(docURI)
 	return s.GetResolved(docURI), path, newFileMappers(map[string]string{path: content})
